@@ -30,7 +30,7 @@ class Contract:
     """
 
     def __init__(self, target, params, result=None, requires=None, ensures=None, raises=(), modifies=(), loops=None,
-                 spec_fns=None, inline=False, inline_callees=(), props=(), note="", trusted=False, witness=None, exposes=None):
+                 spec_fns=None, inline=False, inline_callees=(), props=(), note="", trusted=False, witness=None, exposes=None, defines=None):
         self.target = target
         self.module, self.qual = target.split(":")
         self.params = dict(params)
@@ -47,6 +47,8 @@ class Contract:
         self.note = note
         self.trusted = trusted          # assumed contract (dependency or not-yet-verified): never counted as proved
         self.witness = witness          # callable producing a concrete witness for the vacuity check
+        self.defines = list((defines or {}).items())   # definitional clauses naming the result of a pure, deterministic function by an
+        #                                                   uninterpreted symbol: assumed at call sites, not part of the body's obligations
         self.exposes = dict(exposes or {})   # callee locals named in `ensures`: existentially quantified (fresh) at call sites
 
 
